@@ -451,8 +451,51 @@ def corr_case(seed, drv, res):
         if out != m["res"]:
             return        # reported by C01/C02
         cur = dump_impl(W)
-    cands = [(lab, n) for lab, n in W.objs["netlist"].items() if self_contained(n) and not canon.wf_problems(n) and n._libraries]
-    res.dist("corr:netlists_self_contained:%d" % len(cands))
+    def cloneable(n):
+        # every pin on a wire of the netlist belongs to the netlist (Netlist.clone asserts it), top instance with a reference
+        if not n._libraries or (n._top_instance is not None and n._top_instance._reference is None):
+            return False
+        pins_in = set()
+        insts_in = set()
+        for lib in n._libraries:
+            for d in lib._definitions:
+                insts_in.update(id(k) for k in d._children)
+                pins_in.update(id(q) for p in d._ports for q in p._pins)
+        if n._top_instance is not None:
+            insts_in.add(id(n._top_instance))
+        wires_in = set(id(w) for lib in n._libraries for d in lib._definitions for cb in d._cables for w in cb._wires)
+        t = n._top_instance
+        if t is not None:
+            if any(o._wire is not None and id(o._wire) not in wires_in for o in t._pins.values()):
+                return False
+            if t._parent is not None and not any(t._parent is d for lib in n._libraries for d in lib._definitions):
+                return False
+        for lib in n._libraries:
+            for d in lib._definitions:
+                for k in d._children:
+                    if any(o._wire is not None and id(o._wire) not in wires_in for o in k._pins.values()):
+                        return False
+                for p in d._ports:
+                    if any(q._wire is not None and id(q._wire) not in wires_in for q in p._pins):
+                        return False
+        for lib in n._libraries:
+            for d in lib._definitions:
+                for cb in d._cables:
+                    for w in cb._wires:
+                        for x in w._pins:
+                            if isinstance(x, _OuterPinBase):
+                                if id(x._instance) not in insts_in:
+                                    return False
+                            elif id(x) not in pins_in:
+                                return False
+        return True
+    sc = [(lab, n) for lab, n in W.objs["netlist"].items() if self_contained(n) and not canon.wf_problems(n) and n._libraries]
+    nsc = [(lab, n) for lab, n in W.objs["netlist"].items() if not self_contained(n) and cloneable(n)
+           and all(x == "reference outside the netlist" for x in canon.wf_problems(n, limit=200))]
+    res.dist("corr:netlists_self_contained:%d" % len(sc))
+    if nsc and (not sc or rng.random() < 0.5):
+        return corr_open_netlist(seed, drv, res, W, rng.choice(nsc), script)
+    cands = sc
     if not cands:
         return
     lab, n = rng.choice(cands)
@@ -492,6 +535,50 @@ def corr_case(seed, drv, res):
                           [b[:3] for b in bad[:3]], [b[3] for b in bad[:3]])
     res.case(stable_hash([seed, "corr"]), nontrivial=len(script) >= 10)
     res.dist("clone:corr")
+
+
+def corr_open_netlist(seed, drv, res, W, pick, script):
+    """a netlist whose instances (or top instance) reference definitions OUTSIDE it: the copy keeps those
+    references and joins the outside definitions' reference sets; model: S.cloneElem .netlist"""
+    from engines.irlib import dump_impl, canon_model_dump
+    lab, n = pick
+    off = max(W.counts().values()) + 1
+    inp = {"seed": seed, "what": "corr", "netlist": lab, "open": True}
+    try:
+        c = n.clone()
+    except Exception as e:
+        res.spec_failure("netlist.clone.raises.%s" % type(e).__name__, dict(inp, script=script), repr(e)[:200])
+        return
+    W.keep.append(c)
+    if not label_clone(W, n, c, off):
+        res.spec_failure("netlist.clone.not_identical", inp, "shape of the copy differs (parallel traversal failed)")
+        return
+    after = dump_impl(W)
+    m = drv.ask({"cmd": "cloneElem", "kind": "netlist", "x": lab, "off": off})
+    if any(r != "ok" for r in m.get("res", ["?"])):
+        res.corr_mismatch("S.cloneElem: every call of the prune script is accepted by the model", dict(inp, script=script), "n/a", m.get("res"))
+        return
+    md = canon_model_dump(drv.ask({"cmd": "dump", "n": W.counts()}))
+    exist_i = set(W.objs["instance"])
+    bad = []
+    for kind in after:
+        for lab2, rec in enumerate(after[kind]):
+            if lab2 not in W.objs[kind]:
+                continue
+            mrec = md[kind][lab2] if lab2 < len(md[kind]) else None
+            if mrec is not None and kind == "definition":
+                mrec = dict(mrec, refs=[i for i in mrec["refs"] if i in exist_i])
+            if rec != mrec:
+                bad.append((kind, lab2, rec, mrec))
+    if bad:
+        if any(k == "definition" and r is not None and mr is not None and r["refs"] != mr["refs"] for (k, _, r, mr) in bad):
+            res.spec_failure("netlist.clone.outside_reference.copy_not_in_reference_set", dict(inp, script=script),
+                             "a cloned instance references a definition outside the netlist but is not in that definition's reference set: %s" % (bad[0][:3],))
+        else:
+            res.corr_mismatch("Netlist.clone = S.cloneElem .netlist (references out of the netlist kept)", dict(inp, script=script),
+                              [b[:3] for b in bad[:3]], [b[3] for b in bad[:3]])
+    res.case(stable_hash([seed, "corr-open"]), nontrivial=len(script) >= 10)
+    res.dist("clone:corr:open_netlist")
 
 
 def load_into_model(W, nl, drv):
@@ -631,6 +718,8 @@ def label_elem_clone(W, kind, x, c, off):
             reg("instance", k0, k1)
         return ok
 
+    if kind == "netlist":
+        return label_clone(W, x, c, off)
     if kind == "pin":
         reg("pin", x, c); return True
     if kind == "wire":
@@ -651,7 +740,7 @@ def label_elem_clone(W, kind, x, c, off):
     return False
 
 
-ELEM_KINDS = ["library", "definition", "instance", "port", "cable", "wire", "pin"]
+ELEM_KINDS = ["netlist", "library", "definition", "instance", "port", "cable", "wire", "pin"]
 
 
 def corr_case_elem(seed, drv, res, kind=None):
@@ -805,6 +894,10 @@ def shard(pid, tier, seed, idx, n_cases):
                     item = json.load(open(os.path.join(cdir, fn)))
                     if item["what"] == "correlem":
                         corr_case_elem(item["seed"], drv, res, item.get("kind"))
+                    elif item["what"] == "corr":
+                        corr_case(item["seed"], drv, res)
+                    elif item["what"] == "corrgen":
+                        corr_case_gen(item["seed"], drv, res)
                     else:
                         run_case(item["seed"], res, item["what"])
     finally:
